@@ -14,12 +14,12 @@ Print Assumptions C06_grant_rule.
 
 (* Allocate success: the allocation is created by this very step, its timer is armed for exactly
    the granted lifetime, and the LIFETIME attribute reports that value (in whole seconds) *)
-Theorem C06_allocate_arms_what_it_reports : forall cfg s src tid c tr lt fam df rp s' acts attrs,
-  step cfg s (EReq src tid c (RqAllocate tr lt fam df rp) false) = (s', acts) ->
+Theorem C06_allocate_arms_what_it_reports : forall cfg s src tid c tr lt fam df rp ep rt mt s' acts attrs,
+  step cfg s (EReq src tid c (RqAllocate tr lt fam df rp ep rt mt) false) = (s', acts) ->
   In (Success src MAllocate tid attrs) acts -> find_alloc src (allocs s) = None ->
   exists a relay, allocs s' = allocs s ++ [a] /\ a_client a = src /\ a_relay a = relay /\
     a_perms a = [] /\ a_chans a = [] /\ a_dl a = now s + granted_lifetime cfg lt /\
-    attrs = [SRelayed relay; SLifetime (granted_lifetime cfg lt / sec); SMapped src] /\
+    attrs = [SRelayed relay; SLifetime (granted_lifetime cfg lt / sec); SMapped src] ++ (if ep then [SToken mt] else []) /\
     (exists uid, authenticate cfg s c = AuthOK uid /\ a_user a = uid).
 Proof. exact allocate_success. Qed.
 Print Assumptions C06_allocate_arms_what_it_reports.
@@ -72,8 +72,8 @@ Theorem C06_gone_relay_relays_nothing : forall cfg s relay from d,
   find_relay relay (allocs s) = None -> step cfg s (EPeer relay from d) = (s, []).
 Proof. exact gone_is_gone_relay. Qed.
 Print Assumptions C06_gone_relay_relays_nothing.
-Theorem C06_new_allocation_starts_empty : forall cfg s src tid c tr lt fam df rp s' acts attrs,
-  step cfg s (EReq src tid c (RqAllocate tr lt fam df rp) false) = (s', acts) ->
+Theorem C06_new_allocation_starts_empty : forall cfg s src tid c tr lt fam df rp ep rt mt s' acts attrs,
+  step cfg s (EReq src tid c (RqAllocate tr lt fam df rp ep rt mt) false) = (s', acts) ->
   In (Success src MAllocate tid attrs) acts -> find_alloc src (allocs s) = None ->
   exists a, allocs s' = allocs s ++ [a] /\ a_perms a = [] /\ a_chans a = [].
 Proof. exact new_allocation_is_empty. Qed.
